@@ -1114,3 +1114,24 @@ fn c12_o2_credit_waiter_3_sleeps() {
     }
     c12_o2_credit_waiter();
 }
+
+//@ prop: C12
+//@ tier: thorough
+//@ clause: as c12_o2_reconnect_waiter with up to 3 sleeps per wait call
+//@ funcs: TransferControl::wait_for_reconnect
+//@ symbolic: as c12_o2_reconnect_waiter
+//@ bounds: at most 3 sleeps per call; unwind 5
+//@ oracle: predicate (cancelled or pending resume) on the locked state at each decision point
+//@ stubs: Condvar::wait_timeout -> havoc + arbitrary timed-out flag; Instant::now -> symbolic monotone clock
+//@ replay: solver-trace
+//@ timeout: 1800
+#[kani::proof]
+#[kani::stub(std::time::Instant::now, crate::verif_common::now_stub)]
+#[kani::stub(std::sync::Condvar::wait_timeout, wait_timeout_havoc)]
+#[kani::unwind(5)]
+fn c12_o2_reconnect_waiter_3_sleeps() {
+    unsafe {
+        O2_MAX_WAITS = 3;
+    }
+    c12_o2_reconnect_waiter();
+}
